@@ -11,6 +11,8 @@ from ..cfg import CFG
 from ..core import AnchorError, Func, U, own_nodes
 from ..ctx import Ctx
 from ..reach import Reaching
+from ..dataflow import Problem, solve
+from ..cfg import Node
 from ..report import RuleResult, alpha
 
 API = ["parse", "render", "parseInline", "renderInline"]
@@ -652,9 +654,15 @@ def rule_nlcount(c: Ctx) -> RuleResult:
                 return why
         return ""
 
+    counter_sites: list[tuple[Func, ast.AST]] = []
+
     def incr(f: Func, stmt: ast.AST, amount: ast.AST, depth: int) -> str:
         if isinstance(amount, ast.Constant) and amount.value == 1:
-            return "" if lf_guarded(f, stmt) else (f"`{U(stmt)}` in {f.short} is not dominated by a test that the scanned source character is a line feed")
+            if lf_guarded(f, stmt):
+                if not any(s_ is stmt for (_, s_) in counter_sites):
+                    counter_sites.append((f, stmt))
+                return ""
+            return f"`{U(stmt)}` in {f.short} is not dominated by a test that the scanned source character is a line feed"
         if isinstance(amount, ast.Constant):
             return f"`{U(stmt)}` in {f.short} steps the line count by {amount.value!r}"
         return count(f, amount, stmt, depth)
@@ -700,5 +708,113 @@ def rule_nlcount(c: Ctx) -> RuleResult:
     if nsinks == 0:
         r.add("no-sink", "markdown_it/rules_block/reference.py:0", "-", "state.line = start + <count>", "discharged",
               "no block rule moves the cursor by a computed line count")
+    # ---- completeness of the count: in a `while` loop that steps such a counter, the scan position moves one character at a time
+    # and every character it leaves has been tested for LF (or lies beyond the end): a line feed that is stepped over uncounted -
+    # `pos += 2` over an escaped pair, an escape branch that no longer looks at the escaped character - makes the definition
+    # claim too few lines
+    from ..syn import incr_of, const_int
+    done_loops: set[int] = set()
+    for (f, site) in counter_sites:
+        loop = f.module.parents.get(site)
+        while loop is not None and loop is not f.node and not isinstance(loop, (ast.While, ast.For)):
+            loop = f.module.parents.get(loop)
+        if not isinstance(loop, ast.While) or id(loop) in done_loops:
+            continue
+        done_loops.add(id(loop))
+        inside = {id(x) for x in ast.walk(loop)}
+        # the position variable: the index of a character read from raw text inside the loop
+        pvars: set[str] = set()
+        for x in ast.walk(loop):
+            idx = None
+            if isinstance(x, ast.Call) and isinstance(x.func, ast.Name) and x.func.id in ("charCodeAt", "charStrAt") and len(x.args) == 2 and raw_text(f, x.args[0], x):
+                idx = x.args[1]
+            elif isinstance(x, ast.Subscript) and not isinstance(x.slice, ast.Slice) and isinstance(x.ctx, ast.Load) and raw_text(f, x.value, x):
+                idx = x.slice
+            if isinstance(idx, ast.Name):
+                pvars.add(idx.id)
+        stepped = {io[0] for n in ast.walk(loop) if isinstance(n, (ast.Assign, ast.AugAssign)) and (io := incr_of(n)) is not None}
+        pvars &= stepped
+        if len(pvars) != 1:
+            continue
+        pv = next(iter(pvars))
+        cfg = c.cfg(f)
+
+        def char_at_p(e: ast.AST) -> bool:
+            if isinstance(e, ast.Call) and isinstance(e.func, ast.Name) and e.func.id in ("charCodeAt", "charStrAt") and len(e.args) == 2:
+                return isinstance(e.args[1], ast.Name) and e.args[1].id == pv and raw_text(f, e.args[0], e)
+            if isinstance(e, ast.Call) and isinstance(e.func, ast.Name) and e.func.id == "ord" and len(e.args) == 1:
+                return char_at_p(e.args[0])
+            if isinstance(e, ast.Subscript) and not isinstance(e.slice, ast.Slice):
+                return isinstance(e.slice, ast.Name) and e.slice.id == pv and raw_text(f, e.value, e)
+            return False
+
+        class _Scan(Problem):
+            """state: (tested, frozenset of locals holding the character at the current position)"""
+            def entry_state(self):
+                return (False, frozenset())
+
+            def join(self, a, b, at):
+                return (a[0] and b[0], a[1] & b[1])
+
+            def edge(self, n: Node, st, label: str, succ: Node):
+                tested, fresh = st
+                a = n.ast
+                if a is None:
+                    return st
+                if n.kind == "test" and label in ("T", "F"):
+                    e, pos_ = a, label == "T"
+                    while isinstance(e, ast.UnaryOp) and isinstance(e.op, ast.Not):
+                        e, pos_ = e.operand, not pos_
+                    if isinstance(e, ast.Compare) and len(e.ops) == 1:
+                        l_, op, r_ = e.left, e.ops[0], e.comparators[0]
+                        for x_, y_ in ((l_, r_), (r_, l_)):
+                            if isinstance(y_, ast.Constant) and y_.value in (10, "\n") and isinstance(op, (ast.Eq, ast.NotEq)) \
+                                    and (char_at_p(x_) or (isinstance(x_, ast.Name) and x_.id in fresh)):
+                                return (True, fresh)
+                            # the character is known to be some other constant (`code == 0x5C` held): not a line feed
+                            if isinstance(y_, ast.Constant) and isinstance(y_.value, (int, str)) and y_.value not in (10, "\n") \
+                                    and ((isinstance(op, ast.Eq) and pos_) or (isinstance(op, ast.NotEq) and not pos_)) \
+                                    and (char_at_p(x_) or (isinstance(x_, ast.Name) and x_.id in fresh)):
+                                return (True, fresh)
+                        # beyond the end: nothing to test at this position
+                        if isinstance(l_, ast.Name) and l_.id == pv and ((isinstance(op, ast.Lt) and not pos_) or (isinstance(op, ast.GtE) and pos_)):
+                            return (True, fresh)
+                    return st
+                if n.kind == "stmt" and label != "exc" and isinstance(a, (ast.Assign, ast.AugAssign, ast.AnnAssign)):
+                    io = incr_of(a) if isinstance(a, (ast.Assign, ast.AugAssign)) else None
+                    if io is not None and io[0] == pv:
+                        return (False, frozenset())
+                    tg = a.targets if isinstance(a, ast.Assign) else [a.target]
+                    names = {x.id for t in tg for x in ast.walk(t) if isinstance(x, ast.Name) and isinstance(x.ctx, ast.Store)}
+                    if pv in names:
+                        return (False, frozenset())
+                    v = getattr(a, "value", None)
+                    if v is not None and len(names) == 1 and char_at_p(v):
+                        return (tested, fresh | names)
+                    return (tested, frozenset(fresh - names))
+                return st
+        res_ = solve(cfg, _Scan(), widen_after=10**9)
+        for n in cfg.nodes:
+            a = n.ast
+            if n.kind != "stmt" or a is None or id(a) not in inside or not isinstance(a, (ast.Assign, ast.AugAssign)):
+                continue
+            io = incr_of(a)
+            stores_p = any(isinstance(x, ast.Name) and x.id == pv and isinstance(x.ctx, ast.Store)
+                           for t in (a.targets if isinstance(a, ast.Assign) else [a.target]) for x in ast.walk(t))
+            if not stores_p:
+                continue
+            st = res_.get(n.id)
+            if st is None:
+                continue
+            key = f"{f.short}|scan {pv}|{alpha(f, a)}|{sum(1 for o in r.obligations if o.key.startswith(f.short + '|scan'))}"
+            if io is None or io[0] != pv or not io[2] or const_int(io[1]) != 1:
+                r.add(key, c.where(f, a), f.short, U(a), "violation",
+                      f"the scan that counts line feeds moves `{pv}` by something other than one character: a line feed inside the span it "
+                      f"steps over is not counted, and the definition claims too few lines")
+                continue
+            r.add(key, c.where(f, a), f.short, U(a), "discharged" if st[0] else "violation",
+                  f"the character at `{pv}` has been tested for LF (or lies beyond the end) on every path to this step" if st[0] else
+                  f"`{pv}` is stepped past a character that was not tested for LF on some path (an escaped character, for instance): a line "
+                  f"feed there is not counted, and the definition claims too few lines")
     r.floor = 1
     return r
